@@ -207,11 +207,11 @@ class PyDBMLParser:
             raise RuntimeError(f"type unknown: {blueprint}")
         blueprint.parser = self
 
-    def locate_table(self, schema: str, name: str) -> "Table":
+    def locate_table(self, schema: str, name: str, by_alias: bool = True) -> "Table":
         if not self.database:
             raise RuntimeError("Database is not ready")
         # first by alias (an alias is never schema-qualified)
-        result = self.database.table_dict.get(name) if schema == 'public' else None
+        result = self.database.table_dict.get(name) if by_alias and schema == 'public' else None
         if result is None:
             full_name = f"{schema}.{name}"
             result = self.database.table_dict.get(full_name)
